@@ -87,3 +87,19 @@ Definition wfbc (t : stree) (fo : forest) : bool :=
 
 Definition wfb (t : stree) (fo : forest) : bool :=
   wfbc t fo && nodup_nat (dup_ids_of fo).
+
+(* family lineages crossing a taxon T: the HOGs placed at T, plus the parent -> child links that pass T without a
+   HOG there (the parent strictly above T, the child strictly below).  Property C04: an ancestral genome lists as
+   many genes as family lineages cross its taxon - i.e. no link skips a level. *)
+Definition strictly_between (a T c : taxon) : bool :=
+  anc_or_self a T && negb (taxon_eqb a T) && anc_or_self T c && negb (taxon_eqb T c).
+
+Fixpoint skips (T : taxon) (h : hog) : nat :=
+  match h with
+  | HGene _ _ => 0
+  | HHog _ p _ ks =>
+      list_sum (map (fun k => (if strictly_between p T (htax (snd k)) then 1 else 0) + skips T (snd k)) ks)
+  end.
+
+Definition crossing (T : taxon) (h : hog) : nat :=
+  List.length (filter (fun x => taxon_eqb (htax x) T) (hogs_of h)) + skips T h.
